@@ -28,8 +28,11 @@ type Clause struct {
 	Expr  *SExpr
 	Mods  []*SExpr // for modifies
 	ModsNothing bool
+	ModsAny bool // no frame is promised: callers lose all knowledge of the heap
 	Line  int
 	Func  string
+	Callee string // for callsite clauses: callee name; Loop holds the ordinal
+	used  bool
 }
 
 type SpecFn struct {
@@ -60,6 +63,7 @@ type SpecFile struct {
 
 var clauseHead = regexp.MustCompile(`^(requires|ensures|modifies|assert)\s+(?:([A-Za-z_][A-Za-z0-9_]*)\s*)?(?:\[([A-Z0-9, ]*)\]\s*)?:\s*(.*)$`)
 var loopHead = regexp.MustCompile(`^loop\s+(\d+)\s+invariant\s+(?:([A-Za-z_][A-Za-z0-9_]*)\s*)?(?:\[([A-Z0-9, ]*)\]\s*)?:\s*(.*)$`)
+var callsiteHead = regexp.MustCompile(`^callsite\s+([A-Za-z_][A-Za-z0-9_]*)\s*(?:\[([A-Z0-9, ]*)\]\s*)?(\S+?)#(\d+)\s*:\s*(.*)$`)
 var axiomHead = regexp.MustCompile(`^(axiom|lemma)\s+([A-Za-z_][A-Za-z0-9_]*)\s*(?:\[([A-Z0-9, ]*)\]\s*)?:\s*(.*)$`)
 var specHead = regexp.MustCompile(`^spec\s+([A-Za-z_][A-Za-z0-9_]*)\s*\(([^)]*)\)\s*([^=]+?)\s*(?:=\s*(.*))?$`)
 
@@ -98,7 +102,7 @@ func (sf *SpecFile) parse(path, src string) error {
 	// collect logical items: an item starts at a //@ line whose content begins
 	// with a keyword; other //@ lines continue the previous item.
 	var items []rawItem
-	kw := regexp.MustCompile(`^(func|extern|spec|axiom|lemma|requires|ensures|modifies|assert|loop|inline|trusted|pure)\b`)
+	kw := regexp.MustCompile(`^(func|extern|spec|axiom|lemma|requires|ensures|modifies|assert|callsite|loop|inline|trusted|pure)\b`)
 	for i, ln := range strings.Split(src, "\n") {
 		t := strings.TrimSpace(ln)
 		if !strings.HasPrefix(t, "//@") {
@@ -191,6 +195,21 @@ func (sf *SpecFile) parse(path, src string) error {
 			} else {
 				sf.Axioms = append(sf.Axioms, a)
 			}
+		case strings.HasPrefix(c, "callsite "):
+			if cur == nil {
+				return fmt.Errorf("%s: clause outside func", loc)
+			}
+			m := callsiteHead.FindStringSubmatch(c)
+			if m == nil {
+				return fmt.Errorf("%s: bad callsite clause: %s", loc, c)
+			}
+			var n int
+			fmt.Sscanf(m[4], "%d", &n)
+			e, err := parseSpecExpr(m[5])
+			if err != nil {
+				return fmt.Errorf("%s: %v", loc, err)
+			}
+			cur.Clauses = append(cur.Clauses, &Clause{Kind: "callsite", Callee: m[3], Loop: n, Label: m[1], Tags: splitTags(m[2]), Src: m[5], Expr: e, Line: it.line, Func: cur.Func})
 		case strings.HasPrefix(c, "loop "):
 			if cur == nil {
 				return fmt.Errorf("%s: clause outside func", loc)
@@ -225,6 +244,8 @@ func (sf *SpecFile) parse(path, src string) error {
 			if cl.Kind == "modifies" {
 				if strings.TrimSpace(m[4]) == "nothing" {
 					cl.ModsNothing = true
+				} else if strings.TrimSpace(m[4]) == "anything" {
+					cl.ModsAny = true
 				} else {
 					for _, part := range splitTopLevel(m[4]) {
 						e, err := parseSpecExpr(part)
